@@ -64,6 +64,23 @@ def runOracle (line : String) : String :=
   | 'H' => oracleHigh rest real
   | 'Y' => oracleGrey rest real
   | 'T' => oracleTerminal cfg rest real
+  | 'K' =>
+    -- one canvas, several screens: each screen is judged as the `S` script it is, and what it is sent must not depend on
+    -- another screen having drawn the same canvas (C12)
+    match real.splitOn " ## " with
+    | [shared, alone] =>
+      let sh := shared.splitOn " || "
+      let al := alone.splitOn " || "
+      let judged := ((multiScripts rest).zip sh).map fun (sc, r) => (Screen.oracle 'S' cfg sc r.trimAscii.toString).getD "ok"
+      let tfail := (judged.find? (· ≠ "ok")).map fun v => (v.drop 5).toString
+      let c12 := (((List.range sh.length).zip (sh.zip al)).find? fun (_, a, b) => a.trimAscii.toString ≠ b.trimAscii.toString).map
+        fun (k, _, _) => s!"C12 screen {k} of the script is sent different bytes when the canvas is also drawn by the other screens than when it draws a canvas of its own"
+      match c12, tfail with
+      | none, none => "ok"
+      | some a, none => "FAIL " ++ a
+      | none, some b => "FAIL " ++ b
+      | some a, some b => "FAIL " ++ a ++ " | " ++ b
+    | _ => "FAIL C12 unreadable answer"
   | 'M' =>
     -- the real answer is `<shared> ## <alone>`: each terminal's bytes must not depend on the manipulator OBJECT having been
     -- used on another terminal before (C12: no hidden state shared between instances), and each terminal's bytes are
